@@ -396,6 +396,22 @@ def emit_all(data):
                sym(consts["unknown_qtype"]), sym(consts["unknown_unit"]),
                ", ".join("(%d, %d)" % (sym(a), sym(b)) for a, b in consts["aliases"])))
 
+    # G4: the C06 rows recorded as known findings (so the table theorem can say "every row except
+    # exactly these")
+    import json
+    from common import VERIF
+    bad = []
+    kf = os.path.join(VERIF, "known_findings.json")
+    if os.path.exists(kf):
+        with open(kf, encoding="utf8") as f:
+            for e in json.load(f).get("findings", []):
+                if e.get("property") == "C06" and e.get("status") == "known" and "symbol" in e.get("matcher", {}):
+                    bad.append(e["matcher"]["symbol"])
+    em.add("KnownBad.lean",
+           "import Barril.Model.Basic\nnamespace Barril.Gen\nopen Barril\n"
+           "/-- unit symbols listed for C06 in /verif/known_findings.json -/\n"
+           "def c06KnownBad : List Sym := [%s]\nend Barril.Gen\n" % ", ".join(str(sym(b)) for b in sorted(set(bad))))
+
     dbs_imports = ["Barril.Gen.Consts"]
     dbs_defs = []
     info = {}
